@@ -139,6 +139,8 @@ def build(lib):
         it.ctx.assume(z3.Implies(m >= 1, z3.ForAll([i], z3.Implies(z3.And(i >= 0, i < src(0)), z3.Not(cond.get((i,)))))))
         return (SArr((m,), lambda o: src(o[0]), 'int'),)
     reg('where', _where)
+    reg('flatnonzero', lambda it, a, k: _where(it, [a[0] if isinstance(a[0], SArr) and a[0].dtype == 'bool' else elementwise(it, ast.NotEq(), a[0], 0)], {})[0],
+        "np.flatnonzero(a): the increasing indices of the non-zero entries")
 
     def _searchsorted(it, a, k):
         """np.searchsorted(t, v) (side='left') on a sorted rank-1 t: the p with t[i] < v for i < p and t[i] >= v for i >= p"""
